@@ -651,7 +651,9 @@ def run(facts, cg):
             # the answer of a poll itself (not a payload inside it: `Some` / `Err` are discriminant 1 as well)
             subj = ct[1]
             alts = subj[1] if isinstance(subj, tuple) and subj[0] == 'phi' else [subj]
-            if not any(isinstance(a_, tuple) and (a_[0] == 'await' or (a_[0] == 'call' and (a_[1].split('::')[-1].startswith('poll') or a_[1].split('::')[-1] == 'try_poll'))) for a_ in alts):
+            # (or the answer of an inlined poll helper: one of its ways out is a Pending that was checked where it was built)
+            if not any(isinstance(a_, tuple) and (a_[0] == 'await' or (a_[0] == 'call' and (a_[1].split('::')[-1].startswith('poll') or a_[1].split('::')[-1] == 'try_poll')) or
+                                                  (a_[0] == 'agg' and a_[1] == 'core::task::poll::Poll' and a_[2] == 'Pending')) for a_ in alts):
                 continue
             ty_ = b.lty(sw['op']['pl']['l']) if not sw['op']['pl']['p'] else {}
             for v, tgt in zip(sw['vals'], sw['targets']):
